@@ -582,10 +582,41 @@ def check_dup(chk, prog, summ, f, nullable):
             return True           # a cursor over the copy's own nodes (dest = tmp->head; dest = dest->next)
         return False
 
+    def outparam_fresh(g_, j_):
+        """does the unit-local helper g_ store through its parameter j_ (an out-parameter `item **last`) only NULL, call results
+        or cursors over nodes it created itself - and store something on every path to a return?"""
+        if g_.body is None or g_.cfg is None or j_ >= len(g_.params):
+            return False
+        pd_ = g_.params[j_]["d"]
+        curs_ = copy_cursor_locals(g_, set())
+        stores_ = []
+        for x_ in walk(g_.body):
+            if x_.get("k") == "assign" and x_.get("op") == "=":
+                l_ = X.strip(x_["ch"][0])
+                if l_.get("k") == "un" and l_.get("op") == "*" and (X.strip(l_["ch"][0]) or {}).get("d") == pd_:
+                    stores_.append(x_)
+        if not stores_:
+            return False
+        for x_ in stores_:
+            r_ = X.strip(x_["ch"][1])
+            if not (X.is_null_const(x_["ch"][1]) or (r_ is not None and (r_.get("k") == "call" or (r_.get("k") == "ref" and r_.get("d") in curs_)))):
+                return False
+        gcfg_ = nullness.prepared_cfg(g_, NORETURN)
+        rets_ = [x_ for x_ in walk(g_.body) if x_.get("k") == "return"]
+        return bool(rets_) and all(any(gcfg_.node_dominates(s_["i"], r_["i"]) for s_ in stores_) for r_ in rets_)
+
     def transfer(state, n, blk):
         state = nullness.transfer(state, n, blk)
         k = n.get("k")
         if k == "call" and prog.fn(X.callee_name(n) or "") is not None and prog.fn(X.callee_name(n)).unit is f.unit:
+            # a unit-local helper that hands back part of the copy through an out-parameter (dup_chain(self->head, &last))
+            g0_ = prog.fn(X.callee_name(n))
+            for j0_, a0_ in enumerate(n["ch"][1:]):
+                sa0_ = X.strip(a0_)
+                if sa0_ is not None and sa0_.get("k") == "un" and sa0_.get("op") == "&":
+                    t0_ = X.strip(sa0_["ch"][0])
+                    if t0_ is not None and t0_.get("k") == "ref" and t0_.get("rk") == "local" and outparam_fresh(g0_, j0_):
+                        state = frozenset(state) | {("freshvar", t0_["d"])}
             # a unit-local helper that is handed the copy (copy_chain(copy, self->head)): the fields it re-establishes
             g_ = prog.fn(X.callee_name(n))
             args_ = n["ch"][1:]
